@@ -11,8 +11,9 @@ import itertools
 
 from zope.interface import (Interface, classImplements, classImplementsOnly,
                             directlyProvides, noLongerProvides, Declaration, implementedBy)
-from zope.interface.interface import InterfaceClass
+from zope.interface.interface import InterfaceClass, Specification
 from zope.interface.adapter import AdapterRegistry, VerifyingAdapterRegistry
+from zope.interface.declarations import _empty
 from .common import wmod, newworld
 
 FLAVOURS = {'adapter': AdapterRegistry, 'verifying': VerifyingAdapterRegistry}
@@ -68,9 +69,10 @@ def build(flavour):
     W['top'] = cls()
     W['base'] = cls()
     W['reg'] = cls((W['base'],))
-    for t in 'abcdehgk':
+    for t in 'abcdehgkn':
         W['f' + t] = F(t)
-    W['NONE'] = None               # provided=None: handlers
+    W['NONE'] = None               # provided=None: handlers; required None: any specification
+    W['E'] = _empty                # the shared empty declaration (process-wide singleton)
     return W
 
 
@@ -88,6 +90,7 @@ for rg in ('reg', 'base'):
     MUT += [('subscribe', rg, ('R0',), 'NONE', 'fh'), ('unsubscribe', rg, ('R0',), 'NONE', 'fh')]
 MUT += [('register', 'reg', ('R0', 'Y'), 'P', '', 'fg'), ('ibases', 'Y1', ()), ('ibases', 'Y1', ('Y',))]
 MUT += [('rebuild', 'base'), ('rebuild', 'reg')]      # replaces every internal structure, keeps the contents
+MUT += [('register', 'reg', ('NONE',), 'P', 'any', 'fn')]
 MUT += [('regbases', 'reg', ()), ('regbases', 'reg', ('base',)), ('regbases', 'reg', ('top',)),
         ('regbases', 'base', ('top',)), ('regbases', 'base', ())]
 MUT += [('ibases', 'R1', ('R0',)), ('ibases', 'R1', ()), ('ibases', 'R1', ('X',)),
@@ -108,7 +111,8 @@ LOOK += [('lookup', ('R1',), 'P', 'n'), ('lookup', ('R1', 'R0'), 'P', ''),
          ('queryMultiAdapter', 'ob', 'P', ''), ('subscribers', 'ob', 'P'),
          ('queryAdapter', 'ob2', 'P', ''), ('adapter_hook', 'ob', 'P1', ''),
          ('subscriptions', ('R1',), 'NONE'), ('subscribers', 'ob', 'NONE'),
-         ('queryAdapter', 'obz', 'P', ''), ('lookup', ('SZS',), 'P', '')]
+         ('queryAdapter', 'obz', 'P', ''), ('lookup', ('SZS',), 'P', ''),
+         ('lookup', ('E',), 'P', 'any')]
 LOOKSET = set(LOOK)
 
 
@@ -196,6 +200,10 @@ def do_look(W, op):
 
 def run_hist(flavour, h, stats=None):
     """Every lookup in the history is compared with the twin's answer."""
+    if tuple(_empty.__sro__) != (_empty, Interface):
+        # left damaged by an earlier history of this worker (reported there):
+        # put the process-wide singleton back so that histories stay independent
+        Specification.changed(_empty, _empty)
     W = build(flavour)
     for i, op in enumerate(h):
         if op in LOOKSET:
@@ -216,6 +224,10 @@ def run_hist(flavour, h, stats=None):
                 do_look(W, l)
         else:
             do_mut(W, op)
+    # the shared empty declaration is what it always was, whatever looked it up
+    if tuple(_empty.__sro__) != (_empty, Interface) or not _empty.isOrExtends(Interface):
+        return (len(h) - 1, ('the-shared-empty-declaration',), repr(tuple(_empty.__sro__)),
+                '(_empty, Interface)')
     return None
 
 
